@@ -163,7 +163,11 @@ theorem kholawLaw_unfold :
 whose `pub` is the public key of its private key: the child of the neutered node is the neutered
 child (or the same error — in particular `Bip32KeyError` on both sides when
 `kL + 8·zl[:28] ≡ 0 (mod L)`).  Explicit range hypothesis: the child's left scalar stays below
-`2^255`; `Z = HMAC-SHA512(cc, 0x02 ‖ A ‖ ser32LE idx)`. -/
+`2^255`; `Z = HMAC-SHA512(cc, 0x02 ‖ A ‖ ser32LE idx)`.  Since the second library repair (the size
+test of `_NewPrivateKeyLeftPart` went from `≥ 2^256` to `≥ 2^255`) this hypothesis says exactly that
+the private side is not refused for size; without it the private side raises `Bip32KeyError` while
+the public side, which cannot see `kL`, still returns a key — see `kholaw_ckdPub_comm_of_ok` for the
+form without a range hypothesis. -/
 theorem kholaw_ckdPub_comm (law : KholawLaw) (nd : Node) (k : Bytes) (idx : Nat)
     (hcur : nd.curve = .ed25519Kholaw) (hsch : nd.scheme = .kholaw)
     (hp : nd.priv = some k) (hpub : pubOfPriv .ed25519Kholaw k = some nd.pub)
@@ -184,6 +188,21 @@ theorem kholaw_ckdPub_comm_of_small (law : KholawLaw) (nd : Node) (k : Bytes) (i
   refine Model.kholaw_ckdPub_comm law nd k idx hcur hsch hp hpub hh ?_
   have := Model.kholaw_scalar_lt ((kholawZ nd idx).take 32)
   omega
+
+/-- **commutation, BIP32-Ed25519, success form** — no range hypothesis: whenever the private node
+(any key, hand-supplied ones included) has a non-hardened child `c`, the neutered node has the child
+`c.neuter`.  This is what the `2^255` bound of the second library repair buys: a successful new left
+half is below `2^255`, the range in which libsodium's no-clamp multiplication (scalar mod `2^255`)
+is the mathematical one, so the public key of the private child is the publicly derived child key.
+Under the previous bound `2^256` a child sum in `[2^255, 2^256)` was accepted and its public key was
+`(sum - 2^255)·B`, which differs from the publicly derived `sum·B` in every group model of the point
+layer (`2^255 ≢ 0 (mod L)`), so no such statement held for hand-supplied parents with a large `kL`. -/
+theorem kholaw_ckdPub_comm_of_ok (law : KholawLaw) (nd : Node) (k : Bytes) (idx : Nat)
+    (hcur : nd.curve = .ed25519Kholaw) (hsch : nd.scheme = .kholaw)
+    (hp : nd.priv = some k) (hpub : pubOfPriv .ed25519Kholaw k = some nd.pub)
+    (hh : isHardened idx = false) (c : Node) (hc : kholawChildKey nd idx = .ok c) :
+    kholawChildKey nd.neuter idx = .ok c.neuter :=
+  Model.kholaw_ckdPub_comm_of_ok law nd k idx hcur hsch hp hpub hh c hc
 
 /-- **Byron legacy is different** (F-byron-pubder, recorded finding — no commutation claimed): the
 byte-wise scalar `8·zl` computed without carries reaches bit 255, and then the scalar the public
